@@ -14,6 +14,7 @@ import Cmr.SP
 import Cmr.Balanced
 import Cmr.Equimod
 import Cmr.Text
+import Cmr.Sums
 namespace Cmr
 
 inductive Verdict where
@@ -23,11 +24,13 @@ inductive Verdict where
   | badOp (msg : String)
 deriving Repr
 
+def oneLine (s : String) : String := s.map (fun c => if c == '\n' || c == '\r' then ' ' else c)
+
 def Verdict.render : Verdict → String
   | .ok t => s!"ok {t}"
-  | .fail t m => s!"FAIL {t} {m}"
+  | .fail t m => oneLine s!"FAIL {t} {m}"
   | .skip t => s!"skip {t}"
-  | .badOp m => s!"bad-op {m}"
+  | .badOp m => oneLine s!"bad-op {m}"
 
 /-- size limit (rows, columns) up to which the brute-force oracles are evaluated -/
 def oracleLimit : Nat := 8
@@ -788,6 +791,186 @@ def judgePrintsub : P Verdict := do
     if m2 == m && n2 == n && rs2 == rs.map (fun (x : Nat) => (x : Int)) && cs2 == cs.map (fun (x : Nat) => (x : Int)) then return .ok "printsub"
     else return .fail "printsub:readback" "read back a different submatrix"
 
+
+/-! ### k-sums -/
+
+def tuSmall (m n : Nat) (M : Mat) : Option Bool := if m ≤ 7 && n ≤ 7 then some (isTU m n M) else none
+
+/-- model composition for the harness' `compose` argument conventions -/
+def composeModel (kind : String) (ch : Nat) (m1 n1 : Nat) (M1 : Mat) (m2 n2 : Nat) (M2 : Mat) (s : List (Option Nat)) :
+    Except String Mat :=
+  let g (i : Nat) : Option Nat := (s.getD i none)
+  match kind with
+  | "2" =>
+    match g 0, g 1, g 2, g 3 with
+    | some r, none, none, some c => compose2a ch m1 n1 M1 m2 n2 M2 r c
+    | none, some c, some r, none => compose2b ch m1 n1 M1 m2 n2 M2 c r
+    | _, _, _, _ => .error "2-sum needs (first special row, second special column) or (first special column, second special row)"
+  | "D" =>
+    match g 0, g 1, g 2, g 3, g 4, g 5 with
+    | some r1, some ca, some cb, some r2, some cc, some cd => composeDelta ch m1 n1 M1 m2 n2 M2 r1 ca cb r2 cc cd
+    | _, _, _, _, _, _ => .error "missing special line"
+  | "Y" =>
+    match g 0, g 1, g 2, g 3, g 4, g 5 with
+    | some ra, some rb, some c1, some rc, some rd, some c2 => composeY ch m1 n1 M1 m2 n2 M2 ra rb c1 rc rd c2
+    | _, _, _, _, _, _ => .error "missing special line"
+  | _ =>
+    match s.mapM id with
+    | some [ri, rj, ck, cl, cz, rg, ri2, rj2, ck2, cl2] =>
+      compose3 ch m1 n1 M1 m2 n2 M2 ri rj ck cl cz rg ri2 rj2 ck2 cl2 (fun N => ch != 3 || isTU 3 3 N)
+    | _ => .error "missing special line"
+
+open P in
+def judgeCompose : P Verdict := do
+  let kind ← tok
+  let ch ← nat
+  if kind == "1" then
+    let k ← nat
+    let mats ← many denseMat k
+    expect "=>"
+    let status ← tok
+    if status != "ok" then return .fail "compose:1" s!"status {status}"
+    let some A ← csr | return .fail "compose:1" "no result"
+    let (m, n, E) := compose1 mats
+    match checkCsr A m n with
+    | .error e => return .fail "compose:1:csr" e
+    | .ok R =>
+      if R != E then return .fail "compose:1" s!"impl={matToString R} model={matToString E}"
+      -- 1-sums of TU matrices are TU (and conversely)
+      if m ≤ 7 && n ≤ 7 && (mats.all (fun (a, b, X) => isTU a b X)) != isTU m n R then return .fail "compose:1:tu" "TU of blocks and of the 1-sum differ"
+      return .ok "compose:1"
+  let (m1, n1, M1) ← denseMat
+  let (m2, n2, M2) ← denseMat
+  let ns := if kind == "2" then 4 else if kind == "3" then 10 else 6
+  let specials ← many idx ns
+  expect "=>"
+  let status ← tok
+  let tag := s!"compose:{kind}:{ch}"
+  match composeModel kind ch m1 n1 M1 m2 n2 M2 specials with
+  | .error why =>
+    if status.startsWith "err:" then
+      let rest ← get
+      if rest.contains "outs=1" then return .fail s!"{tag}:object-on-error" "a matrix was handed out together with the error"
+      return .ok s!"{tag}:rejected"
+    else return .fail s!"{tag}:accepted-invalid" s!"operands without the documented shape ({why}) gave {status}"
+  | .ok E =>
+    if status != "ok" then return .fail s!"{tag}:rejected-valid" s!"valid operands rejected: {status}"
+    let some A ← csr | return .fail tag "no result"
+    match checkCsr A (E.length) ((E.getD 0 []).length) with
+    | .error e =>
+      if E.length == 0 || (E.getD 0 []).length == 0 then return .skip s!"{tag}:degenerate" else return .fail s!"{tag}:csr" e
+    | .ok R =>
+      if R != E then return .fail tag s!"impl={matToString R} model={matToString E}"
+      match tuSmall m1 n1 M1, tuSmall m2 n2 M2, tuSmall R.length (R.getD 0 []).length R with
+      | some true, some true, some false =>
+        if ch == 3 then return .fail s!"{tag}:tu" "sum of two TU components is not TU" else return .ok tag
+      | _, _, _ => return .ok tag
+
+def takeIdx (l : List (Option Nat)) (bad : List (Option Nat)) (len : Nat) : List Nat :=
+  (List.range len).filter (fun i => !bad.contains (some i)) |>.filterMap (fun i => l.getD i none)
+
+open P in
+def judgeDecomp : P Verdict := do
+  let kind ← tok
+  let ch ← nat
+  let (m, n, M) ← denseMat
+  let _flags ← many nat (m + n)
+  expect "=>"
+  let status ← tok
+  let tag := s!"decomp:{kind}:{ch}"
+  -- the epsilon / connecting-matrix computations of the 3-separation functions need a path through the first part
+  -- (they are meant for 3-connected matrices) and answer err:INPUT otherwise: no decomposition is returned, nothing to judge
+  if status == "err:INPUT" && kind != "2" then return .skip s!"{tag}:precondition"
+  if status != "ok" then return .fail tag s!"status {status}"
+  let ty ← tok
+  let _sw ← tok
+  let v1 ← submat
+  if v1.isSome then
+    if ch == 3 then return .ok s!"{tag}:ternary-rank-violator" else return .fail tag "violator for binary input"
+  let tern ← tok
+  let v2 ← submat
+  if tern == "tern=0" then
+    match v2 with
+    | some (rs, cs) =>
+      if (idxList rs m).isSome && (idxList cs n).isSome && rs.length == 2 && cs.length == 2 then return .ok s!"{tag}:not-ternary"
+      else return .fail tag "ternary-check violator malformed"
+    | none => return .ok s!"{tag}:not-ternary"
+  let f ← tok
+  if f == "wrongtype" then return .skip s!"{tag}:wrongtype:{ty}"
+  if f != "F" then throw s!"expected F, got {f}"
+  let _fl ← many nat (m + n)
+  let w ← tok
+  if w == "wrongtype" then return .skip s!"{tag}:wrongtype:{ty}"
+  -- w is eps=…; optional conn=
+  let nx ← peek
+  if (nx.getD "").startsWith "conn=" then let _ ← tok
+  let some A1 ← csr | return .fail tag "no first component"
+  let some A2 ← csr | return .fail tag "no second component"
+  let readArr (name : String) : P (List (Option Nat)) := do
+    expect name
+    let k ← nat
+    many idx k
+  let r1o ← readArr "r1o"; let c1o ← readArr "c1o"; let r2o ← readArr "r2o"; let c2o ← readArr "c2o"
+  let fsr ← readArr "fsr"; let fsc ← readArr "fsc"; let ssr ← readArr "ssr"; let ssc ← readArr "ssc"
+  let t ← peek
+  if (t.getD "").startsWith "compose-err" then return .fail s!"{tag}:recompose" s!"composition of the returned components failed: {t.getD ""}"
+  let some AP ← csr | return .fail tag "no recomposed matrix"
+  if !A1.consistent || !A2.consistent then return .fail s!"{tag}:csr" "component not consistent"
+  let M1 := A1.toDense; let M2 := A2.toDense
+  match checkCsr AP m n with
+  | .error e => return .fail s!"{tag}:csr" e
+  | .ok Pm =>
+    -- special lines that are not part of the composed matrix
+    let (bad1r, bad1c, bad2r, bad2c) : List (Option Nat) × List (Option Nat) × List (Option Nat) × List (Option Nat) :=
+      match kind with
+      | "2" => (fsr, fsc, ssr, ssc)
+      | "D" => (fsr, fsc, ssr, ssc)
+      | "Y" => (fsr, fsc, ssr, ssc)
+      | _ => (fsr, [fsc.getD 2 none], [ssr.getD 0 none], ssc)
+    let rho := takeIdx r1o bad1r A1.numRows ++ takeIdx r2o bad2r A2.numRows
+    let kap := takeIdx c1o bad1c A1.numCols ++ takeIdx c2o bad2c A2.numCols
+    if !(rho.length == m && kap.length == n && noDup rho && noDup kap && rho.all (· < m) && kap.all (· < n)) then
+      return .fail s!"{tag}:maps" s!"returned line maps are not bijections onto the lines of the matrix: rows {rho} columns {kap}"
+    if Pm != sub M rho kap then
+      return .fail s!"{tag}:recompose" s!"decompose-then-compose differs from the original under the returned maps: got {matToString Pm}, expected {matToString (sub M rho kap)}"
+    -- fidelity of the composition to the documented formula
+    let specials : List (Option Nat) :=
+      match kind with
+      | "2" => [fsr.getD 0 none, fsc.getD 0 none, ssr.getD 0 none, ssc.getD 0 none]
+      | "D" => [fsr.getD 0 none, fsc.getD 0 none, fsc.getD 1 none, ssr.getD 0 none, ssc.getD 0 none, ssc.getD 1 none]
+      | "Y" => [fsr.getD 0 none, fsr.getD 1 none, fsc.getD 0 none, ssr.getD 0 none, ssr.getD 1 none, ssc.getD 0 none]
+      | _ => [fsr.getD 0 none, fsr.getD 1 none, fsc.getD 0 none, fsc.getD 1 none, fsc.getD 2 none,
+              ssr.getD 0 none, ssr.getD 1 none, ssr.getD 2 none, ssc.getD 0 none, ssc.getD 1 none]
+    match composeModel kind ch A1.numRows A1.numCols M1 A2.numRows A2.numCols M2 specials with
+    | .error why => return .fail s!"{tag}:components" s!"returned components do not have the documented shape: {why}"
+    | .ok E =>
+      if E != Pm then return .fail s!"{tag}:compose-fidelity" s!"library composition {matToString Pm} differs from documented formula {matToString E}"
+      -- components of a TU matrix are TU
+      match tuSmall m n M with
+      | some true =>
+        if ch == 3 && !(isTU A1.numRows A1.numCols M1 && isTU A2.numRows A2.numCols M2) then
+          if kind == "2" then return .fail s!"{tag}:tu" "2-sum component of a totally unimodular matrix is not totally unimodular"
+          -- 3-separations of matrices that are not 3-connected need not have any admissible sign choice; the claim is about
+          -- the choice of signs: alarm only if another choice of the artificial +-1 entries makes both components TU
+          let setE (X : Mat) (i j : Option Nat) (f : Int → Int) : Mat :=
+            match i, j with
+            | some i, some j => X.mapIdx (fun a row => if a == i then row.mapIdx (fun b x => if b == j then f x else x) else row)
+            | _, _ => X
+          let neg := fun (x : Int) => -x
+          let variants : List (Mat × Mat) :=
+            match kind with
+            | "D" => [(setE M1 (fsr.getD 0 none) (fsc.getD 1 none) neg, setE M2 (ssr.getD 0 none) (ssc.getD 0 none) neg)]
+            | "Y" => [(setE M1 (fsr.getD 1 none) (fsc.getD 0 none) neg, setE M2 (ssr.getD 0 none) (ssc.getD 0 none) neg)]
+            | _ =>
+              let f1 := setE M1 (fsr.getD 1 none) (fsc.getD 2 none) neg       -- beta
+              let f2 := setE M2 (ssr.getD 0 none) (ssc.getD 0 none) neg       -- gamma
+              [(f1, M2), (M1, f2), (f1, f2)]
+          if variants.any (fun (X, Y) => isTU A1.numRows A1.numCols X && isTU A2.numRows A2.numCols Y) then
+            return .fail s!"{tag}:tu" "component of a totally unimodular matrix is not totally unimodular although another sign choice makes both components totally unimodular"
+          return .skip s!"{tag}:tu-no-sign-choice"
+        return .ok s!"{tag}:tu"
+      | _ => return .ok tag
+
 /-! ### dispatcher -/
 
 def runP (p : P Verdict) (toks : List String) : Verdict :=
@@ -818,6 +1001,8 @@ def judgeLine (line : String) : Verdict :=
       | "pivot" => runP judgePivot toks
       | "mat" => runP judgeMat toks
       | "stack" => judgeStack (op.drop 1) L.status L.payload
+      | "compose" => runP judgeCompose toks
+      | "decomp" => runP judgeDecomp toks
       | "parse" => runP judgeParse toks
       | "print" => runP judgePrint toks
       | "printsub" => runP judgePrintsub toks
